@@ -128,24 +128,31 @@ where
         input.error_buffer.push(spl_error);
     }
 
-    move |input: TokenStream<'a>| match parser.parse(this, input) {
-        Ok((input, out)) => Ok((input, Some(out))),
-        Err(nom::Err::Error(ParserError {
-            kind: ParserErrorKind::Affected,
-            input,
-        })) => match parser.parse(None, input) {
+    move |input: TokenStream<'a>| {
+        // A failed inner parser may already have consumed leading comments.
+        // They belong to whatever follows, so parsing continues where it started.
+        let start = input.clone();
+        match parser.parse(this, input) {
             Ok((input, out)) => Ok((input, Some(out))),
-            Err(nom::Err::Error(mut err)) => {
-                expect_error(&mut err.input, error_msg.clone());
-                Ok((err.input, None))
+            Err(nom::Err::Error(ParserError {
+                kind: ParserErrorKind::Affected,
+                input,
+            })) => match parser.parse(None, input) {
+                Ok((input, out)) => Ok((input, Some(out))),
+                Err(nom::Err::Error(_)) => {
+                    let mut input = start;
+                    expect_error(&mut input, error_msg.clone());
+                    Ok((input, None))
+                }
+                Err(_) => panic!("Incomplete data"),
+            },
+            Err(nom::Err::Error(_)) => {
+                let mut input = start;
+                expect_error(&mut input, error_msg.clone());
+                Ok((input, None))
             }
             Err(_) => panic!("Incomplete data"),
-        },
-        Err(nom::Err::Error(mut err)) => {
-            expect_error(&mut err.input, error_msg.clone());
-            Ok((err.input, None))
         }
-        Err(_) => panic!("Incomplete data"),
     }
 }
 
